@@ -79,11 +79,16 @@ DIMS: dict = {
     "dcd": [None, "1cmd", "2cmd", "chk0"],
     "xmcd": [None, "flexspi0", "semc0", "flexspi1", "semc1"],
     "ts": [TS_BASE, "01/01/2000 00:00:00", "31/12/2049 23:59:59", None],
-    "pki": ["rsa2048", "rsa4096", "p256", "p384"],
+    # one curve / key size for the whole tree SRK -> CSF, IMG; "p521" is made at run time from the P-521 keys of the fixture
+    # pool (p521_tree): one SRK, CSF and IMG keys with a leading-zero X / Y coordinate
+    "pki": ["rsa2048", "rsa4096", "p256", "p384", "p521"],
     # count:index; "4h" = table of four entries in which the three keys not selected are given as hash-only entries
     "srk": ["4:0", "4:1", "4:2", "4:3", "1:0", "2:0", "2:1", "3:0", "3:1", "3:2", "4h:0", "4h:3"],
+    # command set + key supply.  Key supply: base = private key files named; autodetect = no key named, found next to the
+    # certificate (X_crt.pem -> X_key.pem); autodetect-cst = the same with the legacy CST directory layout crts/ + keys/;
+    # signprovider = "type=file;file_path=..." strings; nocak / nocak-autodetect = fast authentication with the SRK key
     "cmdset": ["base", "set_engine", "unlock_snvs", "unlock_caam", "unlock_ocotp", "unlock_ocotp_uid", "set+unlock",
-               "nocak", "autodetect", "signprovider"],
+               "nocak", "autodetect", "signprovider", "autodetect-cst", "nocak-autodetect"],
     "hver": ["4.2", "4.0", "4.1", "4.3", "4.5", 0x42],
     "heng": ["ANY", "DCP", "CAAM", "SW", "SAHARA", "RTIC"],
     "deng": ["ANY:0", "DCP:0", "CAAM:0", "CAAM:8", "SW:0"],
@@ -106,8 +111,11 @@ DIM_KINDS = {
 TAMPER_DIMS_QUICK = {"size", "ivt", "ils", "dcd", "xmcd", "pki", "srk", "cmdset", "imgidx", "mac", "nonce"}
 # full-product groups (always complete, other dimensions at base)
 # (thorough: k = 2 already contains every pair, so only the triple adds cases there; quick: pki x srk on the first class only)
-GROUPS = [("ivt", "ils", "fam"), ("dcd", "xmcd"), ("pki", "srk")]
-GROUPS_FIRST_CLASS_ONLY_QUICK = {("pki", "srk")}
+GROUPS = [("ivt", "ils", "fam"), ("dcd", "xmcd"), ("pki", "srk"), ("pki", "cmdset")]
+GROUPS_FIRST_CLASS_ONLY_QUICK = {("pki", "srk"), ("pki", "cmdset")}
+# a group may be restricted to some values of a dimension: (key type of the tree) x (every way of supplying the signing keys)
+KEY_SUPPLY = ["base", "autodetect", "autodetect-cst", "signprovider", "nocak", "nocak-autodetect"]
+GROUP_VALUES = {(("pki", "cmdset"), "cmdset"): KEY_SUPPLY}
 TAMPER_LAYOUT_DIMS = {"size", "ivt", "ils", "dcd", "xmcd"}
 
 
@@ -132,7 +140,7 @@ def lattice(dims: dict, k: int) -> list:
 def group_products(dims: dict, groups: list) -> list:
     out = []
     for g in groups:
-        for vals in itertools.product(*[dims[n] for n in g]):
+        for vals in itertools.product(*[[v for v in dims[n] if v in GROUP_VALUES.get((g, n), dims[n])] for n in g]):
             dep = {n: v for n, v in zip(g, vals) if v != dims[n][0]}
             if len(dep) >= 2:
                 out.append(dep)
@@ -142,7 +150,7 @@ def group_products(dims: dict, groups: list) -> list:
 def applicable(dep: dict, kind: str) -> bool:
     if not all(kind in DIM_KINDS.get(n, KINDS) for n in dep):
         return False
-    if dep.get("cmdset") == "nocak" and "imgidx" in dep:
+    if str(dep.get("cmdset", "")).startswith("nocak") and "imgidx" in dep:
         return False  # fast authentication installs no image key
     return True
 
@@ -191,8 +199,15 @@ _SEED = 0
 
 def _hab_index() -> dict:
     if "hi" not in _CACHE:
-        _CACHE["hi"] = fixtures.hab_index()
+        hi = dict(fixtures.hab_index())
+        hi["p521"] = p521_tree()
+        _CACHE["hi"] = hi
     return _CACHE["hi"]
+
+
+def _fx(rel: str) -> str:
+    """Path of a PKI file: relative names live in the committed fixture pool, absolute ones in the run-time tree."""
+    return rel if os.path.isabs(rel) else fixtures.path(rel)
 
 
 def _der(rel: str) -> bytes:
@@ -200,8 +215,89 @@ def _der(rel: str) -> bytes:
     if key not in _CACHE:
         from vf.ref import hab_ref
 
-        _CACHE[key] = hab_ref.der_of_pem(fixtures.read(rel))
+        _CACHE[key] = hab_ref.der_of_pem(open(_fx(rel), "rb").read())
     return _CACHE[key]
+
+
+def _der_len(n: int) -> bytes:
+    return bytes([n]) if n < 0x80 else bytes([0x80 | ((n.bit_length() + 7) // 8)]) + n.to_bytes((n.bit_length() + 7) // 8, "big")
+
+
+def _resign_deterministic(cert, issuer_key):
+    """The same certificate with an RFC 6979 (deterministic) ECDSA signature, so that the run-time tree is byte-identical
+    in every process and run; falls back to the certificate as built when the backend cannot sign deterministically."""
+    from cryptography import x509
+    from cryptography.hazmat.primitives import hashes, serialization
+    from cryptography.hazmat.primitives.asymmetric import ec
+
+    try:
+        tbs = cert.tbs_certificate_bytes
+        sig = issuer_key.sign(tbs, ec.ECDSA(hashes.SHA512(), deterministic_signing=True))
+    except Exception:  # noqa  (UnsupportedAlgorithm / TypeError on older backends)
+        return cert
+    der = cert.public_bytes(serialization.Encoding.DER)
+
+    def tlv(off: int) -> tuple:
+        ln = der[off + 1]
+        if ln & 0x80:
+            k = ln & 0x7F
+            return off + 2 + k, int.from_bytes(der[off + 2:off + 2 + k], "big")
+        return off + 2, ln
+
+    cs, _ = tlv(0)
+    if der[cs:cs + len(tbs)] != tbs:
+        return cert
+    a0 = cs + len(tbs)
+    acs, acl = tlv(a0)
+    body = tbs + der[a0:acs + acl] + b"\x03" + _der_len(len(sig) + 1) + b"\x00" + sig
+    return x509.load_der_x509_certificate(b"\x30" + _der_len(len(body)) + body)
+
+
+def p521_tree() -> list:
+    """HAB PKI on secp521r1, made from the P-521 private keys of the committed fixture pool (no entropy needed):
+    SRK1 (CA, self-signed) -> CSF1, IMG1 (leaves).  Same naming as fixtures/hab (X_crt.pem next to X_key.pem).
+    -> [entry] shaped like fixtures.hab_index()[kind] with absolute paths."""
+    import datetime
+
+    from cryptography import x509
+    from cryptography.hazmat.primitives import hashes, serialization
+    from cryptography.x509.oid import NameOID
+
+    base = os.environ.get("VERIF_WORKDIR") or tempfile.gettempdir()
+    d = os.path.join(base, "c07-pki-p521")
+    names = {"srk": "p521_SRK1", "csf": "p521_CSF1", "img": "p521_IMG1"}
+    entry = {f"{r}_{w}": os.path.join(d, f"{n}_{'crt' if w == 'cert' else 'key'}.pem") for r, n in names.items() for w in ("cert", "key")}
+    if all(os.path.exists(x) for x in entry.values()):
+        return [entry]
+    os.makedirs(d, exist_ok=True)
+    keys = {r: serialization.load_pem_private_key(fixtures.read(f"keys/{k}.pem"), None)
+            for r, k in (("srk", "p521_0"), ("csf", "p521_x0"), ("img", "p521_y0"))}
+    nb = datetime.datetime(2020, 1, 1, tzinfo=datetime.timezone.utc)
+    na = datetime.datetime(2070, 1, 1, tzinfo=datetime.timezone.utc)
+
+    def name(cn: str):
+        return x509.Name([x509.NameAttribute(NameOID.COMMON_NAME, cn), x509.NameAttribute(NameOID.ORGANIZATION_NAME, "verif")])
+
+    def mk(role: str, serial: int):
+        ca = role == "srk"
+        b = (x509.CertificateBuilder().subject_name(name(names[role])).issuer_name(name(names["srk"]))
+             .public_key(keys[role].public_key()).serial_number(serial).not_valid_before(nb).not_valid_after(na)
+             .add_extension(x509.BasicConstraints(ca=ca, path_length=None), critical=True))
+        if ca:
+            b = b.add_extension(x509.KeyUsage(digital_signature=True, content_commitment=False, key_encipherment=False,
+                                              data_encipherment=False, key_agreement=False, key_cert_sign=True, crl_sign=True,
+                                              encipher_only=False, decipher_only=False), critical=False)
+        return _resign_deterministic(b.sign(keys["srk"], hashes.SHA512()), keys["srk"])
+
+    for i, role in enumerate(("srk", "csf", "img")):
+        for path, content in ((entry[f"{role}_cert"], mk(role, 5210 + i).public_bytes(serialization.Encoding.PEM)),
+                              (entry[f"{role}_key"], keys[role].private_bytes(serialization.Encoding.PEM, serialization.PrivateFormat.PKCS8,
+                                                                             serialization.NoEncryption()))):
+            tmp = f"{path}.{os.getpid()}.tmp"
+            with open(tmp, "wb") as f:
+                f.write(content)
+            os.replace(tmp, path)  # atomic: several processes may build the (identical) tree at the same time
+    return [entry]
 
 
 def _layout_table() -> dict:
@@ -229,7 +325,7 @@ def srk_table_file(pki: str, count: int, td: str, hashed_except: Optional[int] =
         if hashed_except is None:
             from spsdk.utils.crypto.rot import RotSrkTableHab
 
-            rot = RotSrkTableHab([fixtures.path(e["srk_cert"]) for e in ents])
+            rot = RotSrkTableHab([_fx(e["srk_cert"]) for e in ents])
             _CACHE[key] = (rot.export(), rot.calculate_hash())
         else:
             from spsdk.crypto.certificate import Certificate
@@ -237,7 +333,7 @@ def srk_table_file(pki: str, count: int, td: str, hashed_except: Optional[int] =
 
             tbl = SrkTable(version=0x40)
             for i, e in enumerate(ents):
-                item = SrkItem.from_certificate(Certificate.parse(fixtures.read(e["srk_cert"])))
+                item = SrkItem.from_certificate(Certificate.parse(open(_fx(e["srk_cert"]), "rb").read()))
                 tbl.append(item if i == hashed_except else item.hashed_entry())
             _CACHE[key] = (tbl.export(), tbl.export_fuses())
     blob, fuses = _CACHE[key]
@@ -277,6 +373,12 @@ def resolve(case: dict) -> dict:
     cnt, idx = p["srk"].split(":")
     p["srk_hashed"] = cnt.endswith("h")
     p["srk_count"], p["srk_index"] = int(cnt.rstrip("h")), int(idx)
+    if p["kind"] != "plain":
+        avail = len(_hab_index()[p["pki"]])
+        if p["srk_count"] > avail:
+            if p["srk"] != DIMS["srk"][0]:
+                raise Skip(f"the {p['pki']} tree has {avail} SRK(s)")
+            p["srk_count"] = avail  # base table of a smaller tree: all its SRKs
     tgt, ver = (int(x) for x in p["skidx"].split(":"))
     p["sk_tgt"], p["sk_ver"] = tgt, ver
     eng, cfg = p["deng"].split(":")
@@ -328,17 +430,28 @@ def build_config(p: dict, seed: int, td: str) -> tuple:
                      csf_der=_der(e["csf_cert"]), img_der=_der(e["img_cert"]), srk_der=_der(e["srk_cert"]),
                      srk_hashed_except=p["srk_index"] if p["srk_hashed"] else None)
         cs = p["cmdset"]
-        nocak = cs == "nocak"
+        nocak = cs.startswith("nocak")
+        named = cs not in ("autodetect", "autodetect-cst", "nocak-autodetect", "signprovider")
+        crt = {r: _fx(e[f"{r}_cert"]) for r in ("srk", "csf", "img")}
+        if cs == "autodetect-cst":
+            # legacy CST layout: certificates in crts/, private keys in keys/ (X_crt.pem -> ../keys/X_key.pem)
+            os.makedirs(os.path.join(td, "crts"))
+            os.makedirs(os.path.join(td, "keys"))
+            for r in ("csf", "img"):
+                stem = os.path.basename(crt[r])[:-len("_crt.pem")]
+                shutil.copyfile(crt[r], os.path.join(td, "crts", stem + "_crt.pem"))
+                shutil.copyfile(_fx(e[f"{r}_key"]), os.path.join(td, "keys", stem + "_key.pem"))
+                crt[r] = os.path.join(td, "crts", stem + "_crt.pem")
         sections.append(sec(20, Header_Version=p["hver"], Header_HashAlgorithm="sha256", Header_Engine=p["heng"],
                             Header_EngineConfiguration=0, Header_CertificateFormat="x509", Header_SignatureFormat="CMS"))
         sections.append(sec(21, InstallSRK_Table=srk_path, InstallSRK_SourceIndex=p["srk_index"]))
-        csf_key, img_key = fixtures.path(e["csf_key"]), fixtures.path(e["img_key"])
+        csf_key, img_key = _fx(e["csf_key"]), _fx(e["img_key"])
         if nocak:
-            sections.append(sec(23, InstallNOCAK_File=fixtures.path(e["srk_cert"]), InstallNOCAK_CertificateFormat="x509"))
-            csf_key = img_key = fixtures.path(e["srk_key"])
+            sections.append(sec(23, InstallNOCAK_File=crt["srk"], InstallNOCAK_CertificateFormat="x509"))
+            csf_key = img_key = _fx(e["srk_key"])
         else:
-            sections.append(sec(22, InstallCSFK_File=fixtures.path(e["csf_cert"]), InstallCSFK_CertificateFormat="x509"))
-        if cs == "autodetect":
+            sections.append(sec(22, InstallCSFK_File=crt["csf"], InstallCSFK_CertificateFormat="x509"))
+        if not named and cs != "signprovider":
             sections.append(sec(24))
         elif cs == "signprovider":
             sections.append(sec(24, AuthenticateCsf_SignProvider=f"type=file;file_path={csf_key}"))
@@ -346,13 +459,13 @@ def build_config(p: dict, seed: int, td: str) -> tuple:
             sections.append(sec(24, AuthenticateCsf_PrivateKeyFile=csf_key))
         img_slot = 0 if nocak else p["imgidx"]
         if not nocak:
-            sections.append(sec(25, InstallKey_File=fixtures.path(e["img_cert"]), InstallKey_VerificationIndex=0,
+            sections.append(sec(25, InstallKey_File=crt["img"], InstallKey_VerificationIndex=0,
                                 InstallKey_TargetIndex=img_slot))
         ad = dict(AuthenticateData_VerificationIndex=img_slot, AuthenticateData_Engine=p["deng_eng"],
                   AuthenticateData_EngineConfiguration=p["deng_cfg"])
         if cs == "signprovider":
             ad["AuthenticateData_SignProvider"] = f"type=file;file_path={img_key}"
-        elif cs != "autodetect":
+        elif named:
             ad["AuthenticateData_PrivateKeyFile"] = img_key
         sections.append(sec(26, **ad))
         given.update(nocak=nocak, img_slot=img_slot)
@@ -1338,6 +1451,9 @@ def enumerate_cases(tier: str) -> dict:
             if kind != "plain":
                 cli.append({"cli": "yaml", "f": f, "d": d, "k": kind, "h": {"pki": "p256"}})
                 cli.append({"cli": "bd", "f": f, "d": d, "k": kind, "h": {"cmdset": "set+unlock", "dcd": "2cmd"}})
+                if key == min(reps):  # key supply through the command line, on the first class
+                    cli.append({"cli": "bd", "f": f, "d": d, "k": kind, "h": {"pki": "p384", "cmdset": "autodetect-cst"}})
+                    cli.append({"cli": "yaml", "f": f, "d": d, "k": kind, "h": {"pki": "p521", "cmdset": "autodetect"}})
     fam["cli"] = cli
     return fam
 
